@@ -38,8 +38,8 @@ theorem gmResize_components (x : Container α) (h : WF x) (k : Nat) (hk : x.comp
         weight := x.weight.conservativeResize k 1
         components := k } := by
   obtain ⟨kind, comps, q, dcc, dim, dl, dci, dn, dcv, mean, cov, weight, state⟩ := x
-  obtain ⟨hpos, hdcc, hdim, hdcov, hmr, hmc, hcr, hcc, hwr, hwc, hsr, hsc, hga⟩ := h
-  simp only at hpos hdcc hdim hdcov hmr hmc hcr hcc hwr hwc hsr hsc hga hk
+  obtain ⟨hdcc, hdim, hdcov, hmr, hmc, hcr, hcc, hwr, hwc, hsr, hsc, hga⟩ := h
+  simp only at hdcc hdim hdcov hmr hmc hcr hcc hwr hwc hsr hsc hga hk
   cases q <;> simp only [if_true, if_false, Bool.false_eq_true] at hdcc hdim hdcov <;> subst hdcc <;>
   simp only [gmResize, if_true, if_false, Bool.false_eq_true] <;>
   rw [if_neg (by omega), if_pos ⟨by omega, by omega, hk⟩] <;>
@@ -55,8 +55,8 @@ theorem psResize_components (x : Container α) (h : WF x) (hps : x.kind = Kind.p
         state := x.state.conservativeResize x.state.rows k
         components := k } := by
   obtain ⟨kind, comps, q, dcc, dim, dl, dci, dn, dcv, mean, cov, weight, state⟩ := x
-  obtain ⟨hpos, hdcc, hdim, hdcov, hmr, hmc, hcr, hcc, hwr, hwc, hsr, hsc, hga⟩ := h
-  simp only at hpos hdcc hdim hdcov hmr hmc hcr hcc hwr hwc hsr hsc hga hk hps
+  obtain ⟨hdcc, hdim, hdcov, hmr, hmc, hcr, hcc, hwr, hwc, hsr, hsc, hga⟩ := h
+  simp only at hdcc hdim hdcov hmr hmc hcr hcc hwr hwc hsr hsc hga hk hps
   cases q <;> simp only [if_true, if_false, Bool.false_eq_true] at hdcc hdim hdcov <;> subst hdcc <;>
   simp only [psResize, gmResize, if_true, if_false, Bool.false_eq_true] <;>
   rw [if_neg (by omega), if_pos ⟨by omega, hk⟩, if_neg (by omega), if_pos ⟨by omega, by omega, hk⟩] <;>
@@ -117,6 +117,21 @@ theorem resize_components_data (x : Container α) (h : WF x) (k : Nat) :
         simp only [Sto.conservativeResize_get]
         rw [if_pos ⟨hik, by omega⟩]
       · intro hh; exact absurd hh hps
+
+/-- `resize(k, …)` always ends with `k` components. -/
+theorem gmResize_components_eq (x : Container α) (k l c : Nat) : (gmResize x k l c).components = k := by
+  simp only [gmResize]
+  split_ifs <;> first | rfl | simp_all
+
+theorem resize_components_eq (x : Container α) (k l c : Nat) : (resize x k l c).components = k := by
+  unfold resize
+  split
+  · simp only [psResize]
+    split_ifs with h1 h2
+    · exact h1.2.2
+    · exact gmResize_components_eq _ k l c
+    · exact gmResize_components_eq _ k l c
+  · exact gmResize_components_eq x k l c
 
 /-! ### Concatenation -/
 
@@ -195,7 +210,7 @@ theorem concat_isSome_iff (x rhs : Container α) :
     simp only [Sto.conservativeResize_rows, Sto.conservativeResize_cols, hs, hm, hc, hw]
 
 /-- Concatenation keeps a particle set well-formed (it keeps the left operand's layout). -/
-theorem wf_concat {x rhs y : Container α} (hx : WF x) (hr : WF rhs) (hps : x.kind = Kind.ps)
+theorem wf_concat {x rhs y : Container α} (hx : WF x) (_hr : WF rhs) (hps : x.kind = Kind.ps)
     (h : concat x rhs = some y) : WF y := by
   obtain ⟨s2, m2, c2, w2, hs, hm, hc, hw, rfl⟩ := concat_some h
   have a := Sto.assignBlock_dims hs
@@ -203,9 +218,8 @@ theorem wf_concat {x rhs y : Container α} (hx : WF x) (hr : WF rhs) (hps : x.ki
   have c := Sto.assignBlock_dims hc
   have d := Sto.assignBlock_dims hw
   simp only [Sto.conservativeResize_rows, Sto.conservativeResize_cols] at a b c d
-  obtain ⟨hpos, hdcc, hdim, hdcov, hmr, hmc, hcr, hcc, hwr, hwc, hsr, hsc, hga⟩ := hx
-  have hrpos := hr.pos
-  refine ⟨by simp only; omega, hdcc, hdim, hdcov, by rw [b.1]; exact hmr, b.2, by rw [c.1]; exact hcr, c.2,
+  obtain ⟨hdcc, hdim, hdcov, hmr, hmc, hcr, hcc, hwr, hwc, hsr, hsc, hga⟩ := hx
+  refine ⟨hdcc, hdim, hdcov, by rw [b.1]; exact hmr, b.2, by rw [c.1]; exact hcr, c.2,
     d.1, d.2, fun hk => by rw [a.1]; exact hsr hk, fun _ => a.2, ?_⟩
   intro hk
   simp only at hk
@@ -299,7 +313,7 @@ theorem wf_of_same_dims {x y : Container α} (h : WF x)
     (hw : y.weight.rows = x.weight.rows ∧ y.weight.cols = x.weight.cols)
     (hs : y.state.rows = x.state.rows ∧ y.state.cols = x.state.cols) : WF y := by
   obtain ⟨e1, e2, e3, e4, e5, e6, e7, e8, e9⟩ := h0
-  obtain ⟨hpos, hdcc, hdim, hdcov, hmr, hmc, hcr, hcc, hwr, hwc, hsr, hsc, hga⟩ := h
+  obtain ⟨hdcc, hdim, hdcov, hmr, hmc, hcr, hcc, hwr, hwc, hsr, hsc, hga⟩ := h
   constructor <;> simp only [e1, e2, e3, e4, e5, e6, e7, e8, e9, hm.1, hm.2, hc.1, hc.2, hw.1, hw.2, hs.1, hs.2] <;>
   assumption
 
@@ -392,15 +406,13 @@ theorem wf_step_pool [Zero α] [One α] [Div α] [NatCast α] (p p' : Pool α) (
     subst h
     exact poolWF_set hp (wf_ctorDefault kind init)
   | ctorDim dst kind k d init =>
-    simp only [step] at h
-    split_ifs at h with hk
-    cases h
-    exact poolWF_set hp (wf_ctorDim kind k d hk init)
+    simp only [step, Outcome.ok.injEq] at h
+    subst h
+    exact poolWF_set hp (wf_ctorDim kind k d init)
   | ctorLayout dst kind k l c q init =>
-    simp only [step] at h
-    split_ifs at h with hk
-    cases h
-    exact poolWF_set hp (wf_ctorLayout kind k l c q hk init)
+    simp only [step, Outcome.ok.injEq] at h
+    subst h
+    exact poolWF_set hp (wf_ctorLayout kind k l c q init)
   | copy dst src =>
     simp only [step] at h
     split at h
@@ -412,8 +424,8 @@ theorem wf_step_pool [Zero α] [One α] [Div α] [NatCast α] (p p' : Pool α) (
     · next x hx =>
       cases h
       apply poolWF_set hp
-      obtain ⟨hpos, hdcc, hdim, hdcov, hmr, hmc, hcr, hcc, hwr, hwc, hsr, hsc, hga⟩ := hp src x hx
-      exact ⟨hpos, hdcc, hdim, hdcov, hmr, hmc, hcr, hcc, hwr, hwc, (by intro hk; cases hk), (by intro hk; cases hk),
+      obtain ⟨hdcc, hdim, hdcov, hmr, hmc, hcr, hcc, hwr, hwc, hsr, hsc, hga⟩ := hp src x hx
+      exact ⟨hdcc, hdim, hdcov, hmr, hmc, hcr, hcc, hwr, hwc, (by intro hk; cases hk), (by intro hk; cases hk),
         (by intro hk; cases hk)⟩
     · cases h
   | resize s k l c =>
@@ -423,8 +435,7 @@ theorem wf_step_pool [Zero α] [One α] [Div α] [NatCast α] (p p' : Pool α) (
     split at h
     · cases h
     · next x hx =>
-      split_ifs at h with hok
-      simp only [decide_eq_true_eq] at hok
+      simp only [if_true] at h
       cases h
       apply poolWF_set hp
       by_cases hg : x.kind = Kind.gaussian
@@ -433,7 +444,7 @@ theorem wf_step_pool [Zero α] [One α] [Div α] [NatCast α] (p p' : Pool α) (
         have : resize x 1 l c = gaussianResize x l c := by simp [resize, gaussianResize, hg]
         rw [this]
         exact wf_gaussianResize x (hp s x hx) l c hg
-      · exact wf_resize x (hp s x hx) k l c hok hg
+      · exact wf_resize x (hp s x hx) k l c hg
   | gaussianResize s l c =>
     simp only [step] at h
     refine onSlot_wf hp ?_ h
@@ -486,8 +497,8 @@ theorem wf_step_pool [Zero α] [One α] [Div α] [NatCast α] (p p' : Pool α) (
       have hd' := (show ∀ x r, p dst = some x → p src = some r →
         (x.kind = Kind.ps → x.state.rows = r.dim - r.dimNoise ∧ x.state.cols = r.components) ∧
         (x.kind = Kind.gaussian → r.components = 1) from hd) x r hx hr
-      obtain ⟨hpos, hdcc, hdim, hdcov, hmr, hmc, hcr, hcc, hwr, hwc, _, _, _⟩ := hp src r hr
-      exact ⟨hpos, hdcc, hdim, hdcov, hmr, hmc, hcr, hcc, hwr, hwc, fun hk => (hd'.1 hk).1, fun hk => (hd'.1 hk).2,
+      obtain ⟨hdcc, hdim, hdcov, hmr, hmc, hcr, hcc, hwr, hwc, _, _, _⟩ := hp src r hr
+      exact ⟨hdcc, hdim, hdcov, hmr, hmc, hcr, hcc, hwr, hwc, fun hk => (hd'.1 hk).1, fun hk => (hd'.1 hk).2,
         fun hk => hd'.2 hk⟩
     · cases h
   | concatAssign dst src =>
@@ -664,7 +675,6 @@ theorem step_frame [Zero α] [One α] [Div α] [NatCast α] (p p' : Pool α) (op
         · cases h)
     | exact onSlot_frame h t ht
     | (cases h; simp [Pool.set, ht])
-    | (split_ifs at h; cases h; simp [Pool.set, ht])
     | (split at h
        · first
            | (cases h; simp [Pool.set, ht])
